@@ -48,7 +48,7 @@ def r1_single_state(ctx):
     for name, w in want.items():
         fn = ast.fn(C, name, impl_self="I18nContext")
         t = flatp(show(fn.body)) if fn else ""
-        if t == w:
+        if same(t, w):
             r.inst("I18nContext::" + name, w)
         else:
             r.viol("R1:I18nContext::" + name, "is `%s`, expected `%s`" % (t, w), file=C)
